@@ -878,3 +878,31 @@ def c20(ctx):
     rnd = ctx.path("cases-b.ndjson")
     vlib.harness(["gen", "dict", ctx.seed, 1200 if q else 15000, rnd])
     vlib.exec_and_judge(ctx, "dict", rnd, "Trace_Dict", "B", sample_keys=keys, per_case_timeout_ms=20000)
+
+
+# ---------------------------------------------------------------------------
+@prop("C08", "loader", "Trace_Loader")
+def c08(ctx):
+    q = ctx.quick()
+    ctx.rule = ("MC: Loader.tla pulls every index of a stream of length <=6 through take/skip/step_by for all ranks of a world <=3 x all "
+                "skip, limit, fast-forward values: the adaptor chain equals the closed form, rank streams are disjoint, their union is "
+                "the single-process stream restricted by skip and limit, skip=k / limit=k split the data, fast_forward(k) is the stream "
+                "after its first k items (world 1; k = m*W for a world of W); termination. A: TLC-enumerated groups (3 file shapes x 3 "
+                "strategies x epochs x pipelines x world 1..3 x skip x limit x fast-forward x shuffle), each with a reference run and "
+                "every rank x {0, 2, 4} threads x buffer {1, 0, 4}, on the real TrainLoader (guarded driver hook) over jsonl files written "
+                "at run time; B: random groups with all preprocessing variants (whitespace / artificial, realistic and mixed spelling "
+                "corruption, switch, chain). non-trivial = some non-reference run yields >= 2 items")
+    ctx.assumptions = ["items are identified by their target text (corruptions only touch the input)",
+                       "thread schedules of the real pipeline are free-running here (controlled schedules are C05's); equality of batches across "
+                       "thread counts / buffer sizes is what is checked"]
+    vlib.mc(ctx, "Loader", "CONSTANTS MaxN = %d MaxWorld = 3\nSPECIFICATION Spec\nINVARIANTS ClosedForm Disjoint UnionIsSingle SplitAtK Resume "
+            "ResumeWorld\nPROPERTY Terminates\nCHECK_DEADLOCK FALSE\n" % (5 if q else 7), name="Loader", workers=8)
+    pipes = '{"none", "spell"}' if q else '{"none", "ws", "spell", "switch"}'
+    gcfg = "CONSTANTS MaxSkip = %d Pipelines = %s\nINIT Init\nNEXT Next\nCHECK_DEADLOCK FALSE\n" % (1 if q else 2, pipes)
+    cases, n = vlib.tlc_generate(ctx, "Gen_Loader", gcfg, "cases-a.ndjson")
+    keys = ["lens", "strategy", "seed", "epoch", "pipeline"]
+    vlib.exec_and_judge(ctx, "loader", cases, "Trace_Loader", "A", sample_keys=keys, per_case_timeout_ms=60000)
+    ctx.exhaustive = True
+    rnd = ctx.path("cases-b.ndjson")
+    vlib.harness(["gen", "loader", ctx.seed, 400 if q else 5000, rnd])
+    vlib.exec_and_judge(ctx, "loader", rnd, "Trace_Loader", "B", sample_keys=keys, per_case_timeout_ms=60000)
